@@ -18,11 +18,15 @@ VARIABLES l, bad,
           saved,      \* stack of [pc, f, imr, s] captured at each delivery (from the pushed frame)
           prevDue,    \* was an interrupt deliverable (outside handlers) at the previous step boundary without being taken
           wantOff,    \* the CPU executed OFF and no ON-key has been seen since
+          risen,      \* per source: the line at which its status bit last rose (by an event before that step or during it)
+          lastDeliv,  \* line of the latest delivery (0: none yet)
+          prevIsr,    \* ISR after the previous step (an event between two steps shows as a difference to the next pre.isr)
           kbirq       \* configuration of the traced machine: 1 = keyboard interrupts enabled (default); 0 = the machine was built
                       \* with them disabled, KEYI then neither arms a request nor wakes a halted CPU (every other source does)
-vars == <<l, bad, saved, prevDue, wantOff, kbirq>>
+vars == <<l, bad, saved, prevDue, wantOff, risen, lastDeliv, prevIsr, kbirq>>
 
 TInit == l = 1 /\ bad = {} /\ saved = <<>> /\ prevDue = FALSE /\ wantOff = FALSE /\ kbirq = 1
+         /\ risen = [i \in 0..3 |-> 0] /\ lastDeliv = 0 /\ prevIsr = 0
 \* the status bits that count for arming / waking under the machine's configuration
 Eff(isr) == IF kbirq = 1 \/ Bit(isr, 2) = 0 THEN isr ELSE isr - 4
 Flag(e, c, d) == bad' = bad \cup {[tid |-> e.tid, line |-> l, clause |-> c, detail |-> d]}
@@ -81,6 +85,7 @@ TNext ==
   /\ l <= Len(TraceLog) /\ l' = l + 1
   /\ LET e == TraceLog[l] IN
      IF e.ev = "Init" THEN bad' = bad /\ saved' = <<>> /\ prevDue' = FALSE /\ wantOff' = FALSE /\ kbirq' = e.kbirq
+                           /\ risen' = [i \in 0..3 |-> 0] /\ lastDeliv' = 0 /\ prevIsr' = 0
      ELSE LET c == Clause(e)
               a == e.pre  b == e.post  fr == e.frame
               D == b.tot > a.tot
@@ -93,7 +98,13 @@ TNext ==
               lost == Dropped(a, b) \ (ClrMask(e) \cup (IF retiRan /\ saved # <<>> THEN {top.src} ELSE {}))
               why == IF c = "StatusNotLost" THEN LostShape(lost, retiRan /\ saved # <<>>, top)
                      ELSE IF c = "DeliveredSourceEnabled" THEN (IF Bit(fr[1], b.src) = 0 THEN "masked-" ELSE "not-pending-") \o SrcName[b.src + 1]
+                     \* a request that is owed but not taken: did (one of) the owed request(s) arrive after the latest delivery - a fresh
+                     \* event - or were all of them already pending when the machine last took an interrupt (or never took one)
+                     ELSE IF c = "PromptAfterUnmask" THEN
+                          (IF \E i \in 0..3 : Bit(b.imr, i) = 1 /\ Bit(Eff(b.isr), i) = 1 /\ lastDeliv > 0 /\ risen[i] > lastDeliv THEN "fresh-request"
+                           ELSE IF lastDeliv = 0 THEN "no-delivery-yet" ELSE "stale-request")
                      ELSE ""
+              risen1 == [i \in 0..3 |-> IF (Bit(prevIsr, i) = 0 /\ Bit(a.isr, i) = 1) \/ (Bit(a.isr, i) = 0 /\ Bit(b.isr, i) = 1) THEN l ELSE risen[i]]
           IN /\ (IF c = "ok" THEN bad' = bad ELSE Flag(e, c, <<e.kind, a, b, fr, why>>))
              /\ saved' = IF D THEN Append(s1, [pc |-> FramePc(fr), f |-> fr[2], imr |-> fr[1], s |-> sAtDelivery, src |-> b.src, isr |-> b.isr]) ELSE s1
              \* "due": deliverable before and still deliverable after the step (the step's own instruction did not mask it)
@@ -101,6 +112,8 @@ TNext ==
              /\ wantOff' = IF Bit(a.isr, 3) = 1 \/ Bit(b.isr, 3) = 1 THEN FALSE
                            ELSE IF e.kind = "OFF" /\ execd /\ ~D /\ b.pw # "run" THEN TRUE ELSE wantOff
              /\ kbirq' = kbirq
+             /\ risen' = risen1 /\ prevIsr' = b.isr
+             /\ lastDeliv' = IF D THEN l ELSE lastDeliv
 
 TSpec == TInit /\ [][TNext]_vars
 Done == l = Len(TraceLog) + 1
